@@ -10,6 +10,7 @@ import (
 	"sync"
 	"time"
 
+	"github.com/bokysan/socketace/v2/internal/client/upstream"
 	"github.com/bokysan/socketace/v2/internal/server"
 	"github.com/bokysan/socketace/v2/internal/util/addr"
 	"github.com/bokysan/socketace/v2/internal/util/buffers"
@@ -149,6 +150,118 @@ func init() {
 			out = append(out, TIn(d))
 		}
 		dl.mu.Unlock()
+		return out
+	})
+	// c03multi <nchan> names.. <nend> (<nallow> names..)*nend <nreq> reqs..
+	//   one channel table, several endpoints filtered one after the other (as servers starting one after the other do); THEN the
+	//   requests are made on every endpoint.  -> per endpoint: ep <filter ok|err> <n> tags.. then per request dial <tag>|refused
+	register("c03multi", func(a []Tok) []Tok {
+		names, pos := parseNames(a, 0)
+		nend := int(a[pos].I)
+		pos++
+		dl := &dialLog{}
+		var table server.Channels
+		for i, n := range names {
+			table = append(table, &recChannel{name: n, tag: i, log: dl})
+		}
+		type ep struct {
+			served server.Channels
+			err    error
+		}
+		var eps []ep
+		for e := 0; e < nend; e++ {
+			var allow []string
+			allow, pos = parseNames(a, pos)
+			var arg []string
+			if len(allow) > 0 {
+				arg = allow
+			}
+			served, err := table.Filter(arg)
+			eps = append(eps, ep{served, err})
+		}
+		reqs, _ := parseNames(a, pos)
+		var out []Tok
+		for _, e := range eps {
+			out = append(out, TW("ep"))
+			if e.err != nil {
+				out = append(out, TW("err"))
+				continue
+			}
+			out = append(out, TW("ok"), TIn(len(e.served)))
+			for _, c := range e.served {
+				out = append(out, TIn(c.(*recChannel).tag))
+			}
+			out = append(out, requestChannels(e.served, reqs)...)
+		}
+		return out
+	})
+	// c03http <nchan> names.. <nend> (<nallow> names..)*nend <nreq> reqs..
+	//   a real HttpServer with one websocket path per endpoint (/p0, /p1, ..); every request is made on every path through a real
+	//   websocket upstream.  -> started|abort, then per path: path, per request dial <tag>|refused
+	register("c03http", func(a []Tok) []Tok {
+		names, pos := parseNames(a, 0)
+		nend := int(a[pos].I)
+		pos++
+		dl := &dialLog{}
+		var table server.Channels
+		for i, n := range names {
+			table = append(table, &recChannel{name: n, tag: i, log: dl})
+		}
+		s := server.NewHttpServer()
+		port := freePort()
+		s.Address = addr.MustParseAddress(fmt.Sprintf("http://127.0.0.1:%d", port))
+		for e := 0; e < nend; e++ {
+			var allow []string
+			allow, pos = parseNames(a, pos)
+			var arg []string
+			if len(allow) > 0 {
+				arg = allow
+			}
+			s.Endpoints = append(s.Endpoints, server.HttpEndpoint{Endpoint: fmt.Sprintf("/p%d", e), Channels: arg})
+		}
+		reqs, _ := parseNames(a, pos)
+		if err := s.Startup(table); err != nil {
+			return []Tok{TW("abort")}
+		}
+		defer s.Shutdown()
+		time.Sleep(30 * time.Millisecond)
+		out := []Tok{TW("started")}
+		for e := 0; e < nend; e++ {
+			out = append(out, TW("path"))
+			for _, rq := range reqs {
+				res, tag := "refused", -1
+				ok := withTimeout(4*time.Second, func() {
+					ups := &upstream.Upstreams{Data: []upstream.Upstream{mkUpstream(fmt.Sprintf("ws://127.0.0.1:%d/p%d", port, e))}}
+					defer ups.Shutdown()
+					st, err := ups.Connect(cfgGetter{clientCfg("none", false, false)}, rq)
+					if err != nil {
+						return
+					}
+					buf := make([]byte, 2)
+					done := make(chan error, 1)
+					go func() { _, err := io.ReadFull(st, buf); done <- err }()
+					select {
+					case err := <-done:
+						if err == nil {
+							res, tag = "dial", int(buf[0])<<8|int(buf[1])
+						} else {
+							res = "selected-nodata"
+						}
+					case <-time.After(2 * time.Second):
+						res = "selected-nodata"
+					}
+					st.Close()
+				})
+				if !ok {
+					res = "hang"
+				}
+				if res == "dial" {
+					out = append(out, TW("dial"), TIn(tag))
+				} else {
+					out = append(out, TW(res))
+				}
+			}
+		}
 		return out
 	})
 	// c03start <kind> <nchan> names.. <nallow> names..  -> started <n> tags.. | abort | nothing
